@@ -50,7 +50,7 @@ func runC15Concurrent(env *sim.Env) {
 	nClients := t.Range(2, 3)
 	dev := t.Choose(4) == 3
 	sched := simrt.NewSched(t, nClients)
-	pools := &simrt.Pools{Tape: t, Policy: simrt.PoolFresh}
+	pools := &simrt.Pools{Tape: t, Policy: simrt.PoolAdversarial} // a Runtime goes from one execution straight to the next, also across clients
 	unhook := pools.Install()
 	defer unhook()
 	sched.Pools = pools
